@@ -432,13 +432,61 @@ Theorem C08_shipped_overlaps_complete :
 Proof. exact overlaps_top_complete. Qed.
 Print Assumptions C08_shipped_overlaps_complete.
 
-(* Stated, not proved: the test is conservative for the pattern model (two forms it separates are matched by no
-   common row).  Missing: "the i-th word of a row matched by a PatternY pattern is the pattern's i-th literal / lies
-   in the language of its i-th one-word regex" from C07Y_match_iff, for the tokens before position 8. *)
+(* The test is conservative for the pattern model: two rules it separates are matched (directly or in reverse form)
+   by no common row.  Stated here, PROVED right below (C08_overlap_test_sound; Proofs/ShippedOverlapSound.v): a row
+   matched by a pattern meets the pattern's demand vector word by word (lit_vec_sound, by induction over the token
+   loops of Model/PatternX.v and Model/PatternY.v: one word per token before the first `~` / `~/re/`, where the
+   vector stops demanding; the no-trailing-boundary peculiarity of rows with `~/re/` only loosens the last token,
+   which lies at or after the `~/re/` word; an inline (?i) pattern demands nothing; a row with fewer words than the
+   demanded positions is not matched), and two vectors the test separates are met by no common word list
+   (vecs_differ_sound). *)
 Definition C08_overlap_test_sound_statement : Prop :=
   forall prefix r1 r2 row,
     vecs_overlap (form_vecs prefix r1) (form_vecs prefix r2) = false ->
     hits ym (fun p => reverse_row p prefix) r1 row = true -> hits ym (fun p => reverse_row p prefix) r2 row = true -> False.
+
+From Annet Require Import Proofs.ShippedOverlapSound.
+
+Theorem C08_overlap_test_sound : C08_overlap_test_sound_statement.
+Proof. exact overlap_test_sound. Qed.
+Print Assumptions C08_overlap_test_sound.
+
+(* the word-level fact behind it, for any number n of examined positions: the words of a row matched by a pattern
+   meet the pattern's demands (a literal: that very word; a one-word regex: a word of its language) *)
+Theorem C08_lit_vec_sound :
+  forall n pat row key, ym pat row = Some key -> sat_vec (lit_vec n pat) (words row).
+Proof. exact lit_vec_sound. Qed.
+Print Assumptions C08_lit_vec_sound.
+
+(* composed with C08_shipped_overlaps_complete: two top-level siblings whose scopes meet and which [overlaps] does not
+   list share no row - the hypothesis `pairwise disjoint languages` of C08_rank for that pair *)
+Theorem C08_shipped_unlisted_disjoint :
+  forall prefix ord i j x y row, i < j -> nth_error ord i = Some x -> nth_error ord j = Some y ->
+  ~ In (o_raw x, o_raw y) (overlaps prefix ord) -> scopes_meet x y = true ->
+  hits ym (fun p => reverse_row p prefix) x row = true -> hits ym (fun p => reverse_row p prefix) y row = true -> False.
+Proof. exact overlaps_unlisted_disjoint. Qed.
+Print Assumptions C08_shipped_unlisted_disjoint.
+
+(* non-vacuity: the test separates `service` from `switch` (a literal against a literal) and `interface */Vlan\d+/`
+   from `interface Loopback0` (a one-word regex against a literal, second word), each rule mentions rows in both
+   forms; it does not separate `interface */Vlan\d+/` from `no interface *` (both mention `no interface Vlan10`) *)
+Definition sound_r1 : orule := ORule "service" "service" false false None [].
+Definition sound_r2 : orule := ORule "switch" "switch" false false None [].
+Definition sound_r3 : orule := ORule "interface */Vlan\d+/" "interface */Vlan\d+/" false false None [].
+Definition sound_r4 : orule := ORule "interface Loopback0" "interface Loopback0" false false None [].
+Definition sound_r5 : orule := ORule "no interface *" "no interface *" false false None [].
+Example C08_overlap_test_sound_nonvacuous :
+  vecs_overlap (form_vecs "no" sound_r1) (form_vecs "no" sound_r2) = false /\
+  hits ym (fun p => reverse_row p "no") sound_r1 "service password-encryption" = true /\
+  hits ym (fun p => reverse_row p "no") sound_r1 "no service pad" = true /\
+  hits ym (fun p => reverse_row p "no") sound_r2 "switch 1 provision" = true /\
+  vecs_overlap (form_vecs "no" sound_r3) (form_vecs "no" sound_r4) = false /\
+  hits ym (fun p => reverse_row p "no") sound_r3 "interface Vlan10" = true /\
+  hits ym (fun p => reverse_row p "no") sound_r4 "no interface Loopback0" = true /\
+  vecs_overlap (form_vecs "no" sound_r3) (form_vecs "no" sound_r5) = true /\
+  hits ym (fun p => reverse_row p "no") sound_r3 "no interface Vlan10" = true /\
+  hits ym (fun p => reverse_row p "no") sound_r5 "no interface Vlan10" = true.
+Proof. vm_compute. repeat split; reflexivity. Qed.
 
 (* non-vacuity / sensitivity of the test on a shipped text: arista.order lists `logging trap` before `logging` *)
 Definition pair_mem (p : string * string) (l : list (string * string)) : bool :=
